@@ -86,6 +86,9 @@ pub enum Event {
     HttpReq(crux_http::protocol::HttpRequest),
     Time(crux_time::TimeRequest),
     Text { s: String, n: Option<u64> },
+    Platform,
+    /// what a capability answered, as the app saw it (Debug text)
+    Got(String),
 }
 
 #[derive(Serialize, Deserialize, Debug, Clone, PartialEq, Default)]
@@ -94,6 +97,7 @@ pub struct ViewModel {
     pub shapes: Vec<Shape>,
     pub last: Option<Shape>,
     pub count: u64,
+    pub last_output: String,
 }
 
 impl Default for Shape {
@@ -133,9 +137,14 @@ impl crux_core::App for App {
                 m.title = s;
                 crux_core::render::render()
             }
-            Event::Kv(op) => Command::request_from_shell(op).then_send(|_| Event::Go),
-            Event::HttpReq(r) => Command::request_from_shell(r).then_send(|_| Event::Go),
-            Event::Time(t) => Command::request_from_shell(t).then_send(|_| Event::Go),
+            Event::Kv(op) => Command::request_from_shell(op).then_send(|o| Event::Got(format!("{o:?}"))),
+            Event::HttpReq(r) => Command::request_from_shell(r).then_send(|o| Event::Got(format!("{o:?}"))),
+            Event::Time(t) => Command::request_from_shell(t).then_send(|o| Event::Got(format!("{o:?}"))),
+            Event::Platform => Command::request_from_shell(crux_platform::PlatformRequest).then_send(|o| Event::Got(format!("{o:?}"))),
+            Event::Got(s) => {
+                m.last_output = s;
+                crux_core::render::render()
+            }
             _ => Command::done(),
         }
     }
@@ -301,6 +310,35 @@ fn bridge_outputs(reg: &Registry, c: &Case) -> Result<(), (&'static str, String)
     Ok(())
 }
 
+/// capability outputs go through the real bridge: a request of the matching kind is made outstanding,
+/// the schema encoding is offered as its response, and the app must have received the value it denotes
+fn bridge_accepts_output(reg: &Registry, c: &Case) -> Result<(), (&'static str, String)> {
+    fn go<T: DeserializeOwned + std::fmt::Debug>(reg: &Registry, c: &Case, ask: Event) -> Result<(), (&'static str, String)> {
+        let mut bytes = vec![];
+        enc_c(reg, &c.container, &c.value, &mut bytes).map_err(|e| ("codec", e))?;
+        let Ok(t) = opts().deserialize::<T>(&bytes) else { return Ok(()) }; // reported by the typed clause
+        let bridge = crux_core::bridge::Bridge::<App>::new(crux_core::Core::new());
+        let out = bridge.process_event(&opts().serialize(&ask).unwrap()).map_err(|e| ("bridge", e.to_string()))?;
+        let reqs: Vec<crux_core::bridge::Request<EffectFfi>> = opts().deserialize(&out).map_err(|e| ("bridge", e.to_string()))?;
+        let Some(id) = reqs.first().map(|r| r.id.0) else { return Err(("bridge", "no request came back".into())) };
+        bridge.handle_response(id, &bytes).map_err(|e| ("core-rejects-valid", format!("the bridge rejects a schema-valid {} of {} bytes as the response to an outstanding request: {e}", c.container, bytes.len())))?;
+        let view: ViewModel = opts().deserialize(&bridge.view().map_err(|e| ("view", e.to_string()))?).map_err(|e| ("view", e.to_string()))?;
+        let want = format!("{t:?}");
+        if view.last_output != want {
+            let cut = |s: &str| s.chars().take(200).collect::<String>();
+            return Err(("core-decodes-other-value", format!("{}: through the bridge the app received {}, the response denotes {}", c.container, cut(&view.last_output), cut(&want))));
+        }
+        Ok(())
+    }
+    match c.container.as_str() {
+        "HttpResult" => go::<crux_http::protocol::HttpResult>(reg, c, Event::HttpReq(crux_http::protocol::HttpRequest::get("http://example.com/").build())),
+        "KeyValueResult" => go::<crux_kv::KeyValueResult>(reg, c, Event::Kv(crux_kv::KeyValueOperation::Get { key: "k".into() })),
+        "TimeResponse" => go::<crux_time::TimeResponse>(reg, c, Event::Time(crux_time::TimeRequest::Now)),
+        "PlatformResponse" => go::<crux_platform::PlatformResponse>(reg, c, Event::Platform),
+        _ => Ok(()),
+    }
+}
+
 fn signature(container: &str, clause: &'static str) -> String {
     // the one shape known on the pinned tree: HttpError's leading #[serde(skip)] variants
     if (container == "HttpError" || container == "HttpResult") && matches!(clause, "rust-writes-other-bytes" | "schema-cannot-decode" | "left-over-bytes" | "reencode-differs") {
@@ -327,7 +365,7 @@ pub fn main(mode: Mode) {
     let check = |c: &Case| -> Result<(), String> {
         let Some(f) = table.get(c.container.as_str()) else { return Err(format!("no Rust type registered in the harness for container {}", c.container)) };
         let reg = thread_registry();
-        let res = f(&reg, c).and_then(|_| bridge_outputs(&reg, c));
+        let res = f(&reg, c).and_then(|_| bridge_outputs(&reg, c)).and_then(|_| bridge_accepts_output(&reg, c));
         let mut labels = vec![];
         variant_labels(&c.container, &c.value, &mut labels);
         labels.push(format!("container:{}", c.container));
@@ -409,7 +447,7 @@ pub fn main(mode: Mode) {
                 Report {
                     prop,
                     tier,
-                    rule: "for every container of the registry TypeGen builds for an app with all shipped capabilities (http, kv, time, platform, render) and an event/view-model zoo, schema-valid values are generated from the schema itself (all variants, empty and long sequences, arbitrary bytes and strings, extreme integers, nested options) and pushed through: schema encode -> core decode -> value comparison by names -> Rust encode -> schema decode -> re-encode; events are also sent through Bridge::process_event and the returned requests and view decoded under the schema; non-trivial = value with >= 2 enum nodes and a non-empty sequence; distinct = distinct (container, value)",
+                    rule: "for every container of the registry TypeGen builds for an app with all shipped capabilities (http, kv, time, platform, render) and an event/view-model zoo, schema-valid values are generated from the schema itself (all variants, empty and long sequences, arbitrary bytes and strings, extreme integers, nested options) and pushed through: schema encode -> core decode -> value comparison by names -> Rust encode -> schema decode -> re-encode; events are also sent through Bridge::process_event and the returned requests and view decoded under the schema, and capability outputs (HttpResult, KeyValueResult, TimeResponse, PlatformResponse) are offered to Bridge::handle_response as the answer to an outstanding request of the matching kind, after which the app must have received the value they denote; strings, byte buffers and u8 sequences occasionally exceed 64 KiB (rarely 1 MiB); non-trivial = value with >= 2 enum nodes and a non-empty sequence; distinct = distinct (container, value)",
                     assumptions: vec![
                         "the harness codec (wire::codec) implements the bincode configuration of the generated shell code: fixed-width little-endian integers, u64 lengths, u32 variant index, u8 option tag".into(),
                         "the registry is taken from TypeGen's public state (the Tracer) after register_app".into(),
